@@ -301,6 +301,12 @@ def task_pe(ctx, cfg, levels, lname, kind, what):
     f = lambda *a: leaves(eq.explicit_terms(mk(*a)))
   elif what == 'implicit':
     f = lambda *a: leaves(eq.implicit_terms(mk(*a))) + leaves(eq.implicit_inverse(mk(*a), 0.1))
+  elif what == 'vertical_velocity':
+    # diagnostic vertical velocity (it also sets the departure points of the semi-Lagrangian vertical advection step) and the diagnostic state
+    def f(*a):
+      st = mk(*a)
+      d = pe.compute_diagnostic_state(st, coords)
+      return (pe.compute_vertical_velocity(st, coords), d.sigma_dot_full, d.sigma_dot_explicit, d.cos_lat_u[0], d.cos_lat_u[1])
   elif what == 'euler_step':
     flt = ti.exponential_step_filter(grid, 0.05, 0.1, 2)
     step = ti.step_with_filters(ti.backward_forward_euler(eq, 0.05), [flt])
@@ -589,6 +595,7 @@ def make_tasks(tier, seed):
            dict(name='pe-dry-explicit', fn='task_pe', kw=dict(cfg=cfg, levels=LS['dy2'].tolist(), lname='dy2', kind='dry', what='explicit')),
            dict(name='pe-dry-implicit', fn='task_pe', kw=dict(cfg=cfg, levels=LS['dy3'].tolist(), lname='dy3', kind='dry', what='implicit')),
            dict(name='pe-dry-explicit-fast-padded', fn='task_pe', kw=dict(cfg=cfgp2, levels=LS['dy2'].tolist(), lname='dy2', kind='dry', what='explicit')),
+           dict(name='pe-dry-vertical-velocity', fn='task_pe', kw=dict(cfg=cfg, levels=LS['dy3'].tolist(), lname='dy3', kind='dry', what='vertical_velocity')),
            dict(name='pe-dry-euler-step', fn='task_pe', kw=dict(cfg=cfg, levels=LS['dy2'].tolist(), lname='dy2', kind='dry', what='euler_step')),
            dict(name='sw-euler', fn='task_sw', kw=dict(cfg=dict(M=2, L=3, nlon=6, nlat=4), integrator='backward_forward_euler')),
            dict(name='sw-euler-fast-padded', fn='task_sw', kw=dict(cfg=cfgp2, integrator='backward_forward_euler'))]
